@@ -5,9 +5,9 @@ META = {
     "property_id": "C01",
     "technique": "PARTIAL: Coq lemmas for the per-node ingredients (S1 takes stepsRemoved+1, advertised steps = current steps, no parent cycle under +1 labelling, selection soundness) + network-level oracle (converged /\\ stable, figure-level ranking) evaluated in Coq on simulated networks of real PtpInstances, every node's trace compared with the model",
     "category": "proof",
-    "text": "Partial by design (DESIGN section 6, C01). Proved for every node of every network: a slave port's decision installs the selected Announce's grandmaster with stepsRemoved+1 and the sender as parent; a master port advertises exactly the node's current stepsRemoved and grandmaster; a labelling that grows by one along every parent link admits no parent cycle and reaches a root within stepsRemoved hops; each node's Ebest/Erbest is a candidate not worse than any other. NOT proved: that networks reach such a steady state (convergence, bounded time, no flapping). That part is evaluated: networks of 2-4 real PtpInstances (pair, line, ring, shared segment, star, double attachment) under a synchronous round schedule with strict rankings by each comparison attribute, an optional clockClass<128 best node and slave-only leaf, and the single-fault scripts (cut, cut-and-restore, silence, quality change); the oracle ok_C01 checks, per connected component, the unique grandmaster, one slave port per other node with parent = a master port on the same segment and stepsRemoved = parent's + 1, exactly one master port per segment, and stability over the last 6 BMCA runs. Each node's full trace is also compared with the Coq model.",
+    "text": "Two instances and the wire between them (Inst/TwoNode.v): C01_two_nodes - an instance that is its own grandmaster emits two Announces, a one-port instance that has heard nobody receives exactly those octets and runs the BMCA: its port becomes SLAVE of the sender (PASSIVE if its clockClass is in 1..127) exactly when its own data set loses the comparison of Figures 34/35, with parentDS = the sender's port, grandmaster = the sender's clock, stepsRemoved 1; C01_two_views_opposite - the two directions never both demote or both keep; the premises hold after init and after every silent history (C01_quiet_init / C01_quiet_run); C01_two_clock_network - two clocks on one link, for every pair of valid one-port configurations with different identities: start, receipt timeout, two Announces each, each hears the octets of the other, BMCA: exactly one port stays MASTER (the clock whose data set wins Figures 34/35), the other is SLAVE or PASSIVE. Partial by design (DESIGN section 6, C01). Proved for every node of every network: a slave port's decision installs the selected Announce's grandmaster with stepsRemoved+1 and the sender as parent; a master port advertises exactly the node's current stepsRemoved and grandmaster; a labelling that grows by one along every parent link admits no parent cycle and reaches a root within stepsRemoved hops; each node's Ebest/Erbest is a candidate not worse than any other. NOT proved: that networks reach such a steady state (convergence, bounded time, no flapping). That part is evaluated: networks of 2-4 real PtpInstances (pair, line, ring, shared segment, star, double attachment) under a synchronous round schedule with strict rankings by each comparison attribute, an optional clockClass<128 best node and slave-only leaf, and the single-fault scripts (cut, cut-and-restore, silence, quality change); the oracle ok_C01 checks, per connected component, the unique grandmaster, one slave port per other node with parent = a master port on the same segment and stepsRemoved = parent's + 1, exactly one master port per segment, and stability over the last 6 BMCA runs. Each node's full trace is also compared with the Coq model.",
     "design_ref": "DESIGN.md section 6 (C01)",
-    "level_note": "The convergence statement itself is exploration (bounded, synchronous schedule), not a theorem; asynchronous delays/jitter/BMCA phases are not explored. Slave-only nodes are leaves (they do not relay timing), a clockClass<128 node is only used as the best node. Theorems closed under the global context.",
+    "level_note": "The convergence statement itself is exploration (bounded, synchronous schedule), not a theorem; asynchronous delays/jitter/BMCA phases are not explored. Slave-only nodes are leaves (they do not relay timing), a clockClass<128 instance that is not the best of its component is known finding F28 (it goes PASSIVE and splits the tree, as IEEE 1588 figure 33 prescribes); kf_C01 accepts such a network only if it passes the whole oracle with those instances treated as ends of the tree. Theorems closed under the global context.",
 }
 
 S = portcheck.make(
